@@ -302,7 +302,11 @@ func funcOfValue(v ssa.Value, depth int) (*ssa.Function, *ssa.MakeClosure) {
 	}
 	switch x := core.StripConv(v).(type) {
 	case *ssa.MakeClosure:
-		return x.Fn.(*ssa.Function), x
+		f := x.Fn.(*ssa.Function)
+		if m := boundMethod(f); m != nil {
+			return m, x // method value: the closure is the bound-method wrapper around m
+		}
+		return f, x
 	case *ssa.Function:
 		if o := x.Origin(); o != nil {
 			return o, nil
@@ -440,3 +444,20 @@ func mapFuncs(r *Run, mm *core.MapModel) []*ssa.Function {
 }
 
 var mapAPINames = []string{"Load", "Store", "LoadOrStore", "LoadAndStore", "LoadOrCompute", "Compute", "LoadAndDelete", "Delete", "Range", "Clear", "Size"}
+
+// boundMethod returns the method a compiler-generated bound-method wrapper (the closure behind a method
+// value such as x.fn) forwards to, or nil when f is not such a wrapper.
+func boundMethod(f *ssa.Function) *ssa.Function {
+	if f == nil || !(strings.Contains(f.Synthetic, "bound method wrapper") || strings.Contains(f.Synthetic, "thunk") || strings.Contains(f.Synthetic, "wrapper for")) {
+		return nil
+	}
+	var m *ssa.Function
+	core.Instrs(f, func(in ssa.Instruction) {
+		if c, ok := in.(ssa.CallInstruction); ok {
+			if cal := core.Callee(c); cal != nil && cal.Blocks != nil {
+				m = cal
+			}
+		}
+	})
+	return m
+}
